@@ -449,6 +449,12 @@ impl<T> Parser<T> for ParseCommand<T> {
             }
 
             args.path.push(self.longs[0].to_string());
+            #[cfg(bpaf_verif)]
+            crate::verif::evx(
+                "cmd_enter",
+                args,
+                &format!("\"ix\":{},\"adjacent\":{}", args.current.unwrap_or(0), self.adjacent),
+            );
             if self.adjacent {
                 let mut orig_args = args.clone();
 
